@@ -710,6 +710,7 @@ func (fsm *fsm) stateChange(nextState bgp.FSMState, reason *fsmStateReason) {
 		// back without the graceful restart / long-lived graceful restart capability,
 		// without the N bit, or with fewer address families.
 		conf.GracefulRestart.State.Enabled = false
+		conf.GracefulRestart.State.PeerRestartTime = 0
 		conf.GracefulRestart.State.NotificationEnabled = false
 		conf.GracefulRestart.State.LongLivedEnabled = false
 		for i := range conf.AfiSafis {
@@ -717,6 +718,7 @@ func (fsm *fsm) stateChange(nextState bgp.FSMState, reason *fsmStateReason) {
 			conf.AfiSafis[i].MpGracefulRestart.State.Received = false
 			conf.AfiSafis[i].LongLivedGracefulRestart.State.Enabled = false
 			conf.AfiSafis[i].LongLivedGracefulRestart.State.Received = false
+			conf.AfiSafis[i].LongLivedGracefulRestart.State.PeerRestartTime = 0
 		}
 
 		gr, ok := fsm.capMap[bgp.BGP_CAP_GRACEFUL_RESTART]
